@@ -29,6 +29,12 @@ CHECKS = {
  "C08": dict(level="model_checking", technique="bounded exhaustive symbolic execution of enter/leave/abort histories of guarded regions with symbolic condition values (symtrace/z3)",
              text="All region forests with up to 3 (quick) / 4 (thorough) regions, nesting 2 / 3, realised with runtime.guarded (normal exit and an exception at every statement position) and add_guard/restore_guard pairs, both initial error modes, are executed with symbolic condition values; on every feasible path the (guard, error-suppression, constant-one) triple after each region is identical to the one before, the guard value inside is the conjunction of the enclosing conditions and constants are multiples of the active guard.",
              note="Trusted: engine path enumeration (z3 feasibility), object identity observed in-process. Outside: exceptions escaping block-API regions; the guard WIRE being the product is C02 (secret & secret).", ref="5/C08"),
+ "C15": dict(level="model_checking", technique="symbolic execution with a symbolic secret index (symtrace/z3): value = list reference, witness satisfies, one trace over all index paths, uniqueness and out-of-range unprovability by SMT over the captured R1CS",
+             text="Bounded symbolic check of secret-index reads/writes (1-D lengths 1..3/4, 2x2, sequences of 2/3 operations, secret and constant cells): the five obligation families of C05 (value = If-chain list reference), C01, C06 (one canonical trace across every index path incl. out-of-range under ignore_errors), C02 (result unique) and C03 (out-of-range index raises and its constraints are unsatisfiable) are discharged for all cell and index values within the bounds.",
+             note="Trusted: engine, z3, integer encoding of the R1CS. Constant cells are pairwise distinct objects (if_then_else short-circuits on identity).", ref="5/C15"),
+ "C16": dict(level="model_checking", technique="symbolic execution (symtrace/z3) of to_bits/from_bits/check_positive/assert_positive at explicit widths and of the pack/unpack functions on symbolic plain and secret values; SMT obligations for round trip, rejection and enforced width",
+             text="Bounded symbolic check: decomposition/recomposition at widths 1,2,3,n-1,n,n+1 returns the value for all 0<=v<2^w, rejects outside, and the width enforced in-circuit is the requested one (rejected => unsatisfiable); packer schemas (Bool, IntMod(m), List, Repeat, depth 2) round-trip symbolic plain and secret values, reject out-of-range plain values, report their true bit length, and unpack enforces value < m on both kinds of secret bit lists.",
+             note="Trusted: engine, z3, integer encoding of the R1CS. Bounds: bitlength 4 (quick) / 4,8; values < 2^20.", ref="5/C16"),
 }
 NA_REASON = "check not built yet in this session (design in DESIGN.md section 5); will be claimed once its check exists"
 
